@@ -790,11 +790,11 @@ fn run_case(case: &str) -> (String, String, String) {
 /// (script, the read-only variable, other names observed)
 fn rop_script(k: &str) -> Option<(&'static str, &'static str, &'static [&'static str])> {
     Some(match k {
-        "cdpwd" => ("PWD=0\nreadonly PWD\ncd /\necho r$?", "PWD", &[]),
-        "cdold" => ("OLDPWD=0\nreadonly OLDPWD\ncd /\necho r$?", "OLDPWD", &[]),
-        "optind" => ("readonly OPTIND\ngetopts a o -a\necho r$?", "OPTIND", &["o"]),
-        "optarg" => ("OPTARG=0\nreadonly OPTARG\ngetopts a: o -a v\necho r$?", "OPTARG", &["o"]),
-        "optargu" => ("OPTARG=0\nreadonly OPTARG\ngetopts a o -a\necho r$?", "OPTARG", &["o"]),
+        "cdpwd" => ("PWD=0\nreadonly PWD\ncd /\necho r$?", "PWD", &["OLDPWD"]),
+        "cdold" => ("OLDPWD=0\nreadonly OLDPWD\ncd /\necho r$?", "OLDPWD", &["PWD"]),
+        "optind" => ("readonly OPTIND\ngetopts a o -a\necho r$?", "OPTIND", &["o", "OPTARG"]),
+        "optarg" => ("OPTARG=0\nreadonly OPTARG\ngetopts a: o -a v\necho r$?", "OPTARG", &["o", "OPTIND"]),
+        "optargu" => ("OPTARG=0\nreadonly OPTARG\ngetopts a o -a\necho r$?", "OPTARG", &["o", "OPTIND"]),
         "linenoas" => ("readonly LINENO\nLINENO=5\necho r$?", "LINENO", &[]),
         _ => return None,
     })
